@@ -143,7 +143,7 @@ class Harness(object):
         if self.intmode and k != int(k):
             k = 2.0
         v = getattr(self.cf, name)
-        v *= type(v[0])(k) if self.intmode and len(v) else k
+        v *= (int(k) if (self.intmode and v.dtype.kind in "iu") else k)
         setattr(self.cf, name, v)
         self.model[name] = [x * k for x in self.model[name]]
 
